@@ -710,7 +710,7 @@ def check_totality(ctx, oid="C06.1"):
     fb = ctx.fn("bits.base58.is_base58check")
     sb = ev.run(fb)
     R.check(oid, "EXC", fb, "is_base58check catches every exception", not sb.raises() and any(
-        tm.contains(g, lambda t: isinstance(t, T) and t.op == "except" and ("Exception" in t.args[0] or "BaseException" in t.args[0])) for e in sb.returns() for g in e.guard),
+        tm.contains(g, lambda t: isinstance(t, T) and t.op == "except" and ("Exception" in t.args[0] or "BaseException" in t.args[0])) for e in sb.returns() for g in list(e.guard) + list(e.facts) + [e.value]),
             "is_base58check does not catch Exception")
 
 
